@@ -71,9 +71,10 @@ def evalExpr (ctx : Ctx) : Expr → Outcome Number
       match ctx.lookup scale, ctx.lookup base with
       | some s, some b =>
         let scaled := Number.mul v s
-        if scaled.unit != b.unit then .panic "degree: base constant and scale differ in unit"
+        -- (after the fix: a database whose zero point is not in the scale's unit is an error, not a panic)
+        if scaled.unit != b.unit then .err .generic
         else .ok ⟨scaled.value.add b.value, scaled.unit⟩
-      | _, _ => .panic "degree: missing unit"
+      | _, _ => .err .generic      -- the database lacks the scale's unit or zero point
   | .mul es => evalMul ctx Number.one es
   | .ofProp p (.unit name) =>
     -- `ctx.lookup(name)` is tried first; a Number has no properties ("Not defined")
@@ -372,18 +373,18 @@ def evalQuery (ctx : Ctx) (q : Query) : Outcome Reply :=
     let t ← evalExpr ctx top
     let (base, scale) := d.baseScale
     match ctx.lookup scale with
-    | none => .panic "Unit missing"
+    | none => .err .generic
     | some bottom =>
       if t.unit != bottom.unit then .err .conformance
       else match ctx.lookup base with
-        | none => .panic "Constant missing"
+        | none => .err .generic
         | some b =>
-          if t.unit != b.unit then .panic "degree: sub unwrap"
+          if t.unit != b.unit then .err .generic
           else
             let res : Number := ⟨t.value.sub b.value, t.unit⟩
             match Number.div res bottom with
             | .ok raw => .ok (.conversion raw bottom [(d.display, 1)] .one 10 digits)
-            | .err _ => .panic "degree: div unwrap"
+            | .err _ => .err .generic
             | .panic s => .panic s
             | .unsupported s => .unsupported s
   | .convert _ _ (some _) _ => .err .generic
